@@ -154,6 +154,7 @@ theorem arrK_lenK_sound {k : ArrK} {v : List Nat} (h : k.γ v) : k.lenK.γ v.len
   | cl m => simpa [ArrK.lenK, LenK.γ] using (show LeAll v m from h).length_eq
   | rt n => simpa [ArrK.lenK, LenK.γ, ArrK.γ] using h
   | rtv => simp [ArrK.lenK, LenK.γ]
+  | bnd cap => simpa [ArrK.lenK, LenK.γ, ArrK.γ] using h
 
 /-! ### products -/
 
